@@ -758,7 +758,7 @@ func genLife(c *gal.Ctx, maxSeg, maxLen int) ([]cmdT, map[int]bool) {
 
 func main() {
 	installHashWrappers() // before anything can put a hasher into the pool
-	c := gal.New("C02", header, 120)
+	c := gal.New("C02", header, 125)
 	shared := tpm.NewTPM()
 	vets := []*tpm.TPM{shared, tpm.NewTPM(), tpm.NewTPM(), tpm.NewTPM()}
 
